@@ -64,10 +64,13 @@ type C19Case struct {
 	ToServer  []C19Pkt     `json:"to_server"`
 	Handlers  []C19Handler `json:"handlers"`
 	FailAt    int          `json:"fail_at"` // index into the expected handler-call log at which the handler fails (-1: never)
-	Refuse    bool         `json:"refuse"`  // the LoginChecker refuses the player
-	TCP       bool         `json:"tcp"`     // loopback TCP instead of the in-memory duplex
-	Ping      bool         `json:"ping"`    // also perform a status ping (TCP)
-	Chunk     int          `json:"chunk"`
+	// HangUp: the server closes the connection as soon as it has sent and received everything (in-memory
+	// connection only: a TCP reset may legitimately discard unread data)
+	HangUp bool `json:"hang_up,omitempty"`
+	Refuse bool `json:"refuse"` // the LoginChecker refuses the player
+	TCP    bool `json:"tcp"`    // loopback TCP instead of the in-memory duplex
+	Ping   bool `json:"ping"`   // also perform a status ping (TCP)
+	Chunk  int  `json:"chunk"`
 }
 
 // ---- server side harness ----------------------------------------------------------------------------
@@ -147,6 +150,11 @@ func (g *c19Game) AcceptPlayer(name string, id uuid.UUID, _ *user.PublicKey, _ [
 	// report, then keep the connection open until the client hangs up (AcceptConn closes it on return)
 	g.done <- res
 	sent = true
+	if g.c.HangUp {
+		// the server hangs up right after its last packet: everything it sent was sent before the close,
+		// so the bot must still dispatch all of it before HandleGame reports the end of the stream
+		return
+	}
 	var tail pk.Packet
 	_ = conn.ReadPacket(&tail)
 }
@@ -463,7 +471,11 @@ func genC19(t *rapid.T) C19Case {
 	c.Name = rapid.OneOf(rapid.StringMatching(`[A-Za-z0-9_]{1,16}`), rapid.SampledFrom([]string{"Steve", "a", "é_ü", "名前", "Notch_16_chars__"})).Draw(t, "name")
 	c.Threshold = rapid.SampledFrom([]int{-1, 0, 1, 64, 256, 1 << 20}).Draw(t, "thr")
 	c.Refuse = rapid.IntRange(0, 9).Draw(t, "refuse") == 4
+	c.HangUp = rapid.Bool().Draw(t, "hang_up")
 	c.TCP = rapid.IntRange(0, 9).Draw(t, "tcp") == 4
+	if c.TCP {
+		c.HangUp = false
+	}
 	c.Ping = rapid.IntRange(0, 7).Draw(t, "ping") == 3
 	c.Chunk = rapid.SampledFrom([]int{0, 0, 1, 7, 100}).Draw(t, "chunk")
 	ids := []int32{1, 2, 3, int32(packetid.ClientboundPacketIDGuard) - 1, 0x2b, 0x6c}
@@ -545,7 +557,7 @@ var c19Prop = pbt.Register(pbt.Prop[C19Case]{
 				break
 			}
 		}
-		for k, v := range map[string]bool{"refuse": c.Refuse, "tcp": c.TCP, "ping": c.Ping, "handler_fails": c.FailAt >= 0} {
+		for k, v := range map[string]bool{"server_hangs_up_after_last_packet": c.HangUp, "refuse": c.Refuse, "tcp": c.TCP, "ping": c.Ping, "handler_fails": c.FailAt >= 0} {
 			if v {
 				labels = append(labels, k)
 			}
